@@ -12,6 +12,11 @@ subprocess.run(["git", "-C", "/repo", "worktree", "remove", "--force", wt], capt
 subprocess.run(["git", "-C", "/repo", "worktree", "add", wt, "HEAD", "-q"], check=True)
 meta = {"id": name, "property": prop, "repo_head": subprocess.run(["git", "-C", "/repo", "rev-parse", "--short", "HEAD"], capture_output=True, text=True).stdout.strip()}
 try:
+    # SEED_BASE_PATCHES=<patch>:<patch>…  pending `fix:` patches (notes/fixes_pending/*.patch) applied BEFORE the seed, so that
+    # a seed is judged against the repaired tree the mirrored model describes (otherwise the fixed finding itself is reported)
+    for bp in [x for x in os.environ.get("SEED_BASE_PATCHES", "").split(":") if x]:
+        r0 = subprocess.run(["git", "-C", wt, "apply", str(Path(bp).resolve())], capture_output=True, text=True)
+        meta.setdefault("base_patches", []).append({"patch": Path(bp).name, "applies": r0.returncode == 0})
     ap = subprocess.run(["git", "-C", wt, "apply", str(src / "patch.diff")], capture_output=True, text=True)
     meta["patch_applies"] = ap.returncode == 0
     if ap.returncode != 0:
